@@ -30,7 +30,7 @@ def K(occ, *ch, id="K", t="AtLeast"):
     return {"t": "AtLeast", "id": id, "value": "$v_%s%d" % (id, occ), "sign": "$s_%s%d" % (id, occ), "ch": list(ch)}
 
 
-def skeletons():
+def skeletons(tier="thorough"):
     a, b, c, d = F.a, F.b, F.c, F.d
     N = F.N
     L = []
@@ -43,6 +43,12 @@ def skeletons():
     L.append(("compound-compound-same-id", N("All", N("Any", N("Any", a(), b(), id="K"), c(), id="B"), N("Any", N("Any", a(), c(), id="K"), d(), id="C"), id="A")))
     L.append(("compound-compound-same-id", N("All", N("Any", N("Any", a(), b(), id="K"), c(), id="B"), N("Any", N("All", a(), b(), id="K"), d(), id="C"), id="A")))
     L.append(("compound-compound-same-id", N("All", N("Any", N("Any", a(), b(), id="K"), c(), id="B"), N("Any", N("Any", a(), b(), id="K", vb=[1, 1]), d(), id="C"), id="A")))
+    # same id, same value/children, sign free, children with bounds symmetric around zero (equation bounds cannot tell the signs apart)
+    y1 = lambda: F.V("y", -1, 1)    # noqa
+    L.append(("compound-compound-same-id", N("All", N("Any", K(1, y1()), c(), id="B"), N("Any", K(2, y1()), d(), id="C"), id="A")))
+    L.append(("compound-compound-same-id", N("All", N("Any", K(1, F.V("p", 0, 1), F.V("q", -1, 0)), c(), id="B"), N("Any", K(2, F.V("p", 0, 1), F.V("q", -1, 0)), d(), id="C"), id="A")))
+    if tier == "thorough":
+        L.append(("compound-compound-same-id", N("All", N("Any", K(1, F.V("y", -2, 2), F.V("z", -3, 3)), c(), id="B"), N("Any", K(2, F.V("y", -2, 2), F.V("z", -3, 3)), d(), id="C"), id="A")))
     L.append(("self-reference", N("Any", a(), N("Any", b(), F.V("A"), id="B"), id="A")))
     L.append(("self-reference", N("Any", a(), N("Any", b(), N("All", c(), F.V("B"), id="C"), id="B"), id="A")))
     L.append(("duplicate-child", N("Any", a(), N("All", b(), {"t": "var", "id": "b", "occ": 2, "lo": 0, "hi": 1}, id="B"), id="A")))
@@ -71,7 +77,7 @@ def _quickify(sk):
 
 def instantiations(tier, seed):
     out = [{"part": "hash", "what": "bounds"}, {"part": "hash", "what": "variable"}, {"part": "hash", "what": "atleast"}]
-    for k, (cls, sk) in enumerate(skeletons()):
+    for k, (cls, sk) in enumerate(skeletons(tier)):
         if tier == "quick":
             sk = _quickify(sk)
         names = F.ALT_NAMES[(k + seed) % len(F.ALT_NAMES)] if cls == "plain-tree" else {}
